@@ -88,11 +88,16 @@ template <class T> void propValue(Ctx& c, const T& x, const std::string& key, bo
     c.pstats["combinator"]++;
 }
 
+// a bitset's descriptor is that of its wire integer (p8); the failure key names the C++ type
+template <class T> struct BitsetWidth { static constexpr std::size_t value = 0; };
+template <std::size_t N> struct BitsetWidth<std::bitset<N>> { static constexpr std::size_t value = N; };
+
 template <class T> void propType(Ctx& c, int reps) {
     const std::string ty = Codec<T>::ty();
+    const std::string key = BitsetWidth<T>::value ? "combinator.bitset" + std::to_string(BitsetWidth<T>::value) : "combinator." + ty;
     for (int i = 0; i < reps; ++i) {
         GenCfg cfg; cfg.maxLen = (i % 5 == 4) ? 4 * c.maxLen : c.maxLen;
-        propValue<T>(c, Codec<T>::gen(c.rng, cfg), "combinator." + ty);
+        propValue<T>(c, Codec<T>::gen(c.rng, cfg), key);
     }
 }
 
@@ -288,6 +293,11 @@ int main(int argc, char** argv) {
         c.plog = &plog;
         const int reps = thorough ? 500 : 20;
         c.maxLen = 5;
+        {   // every bit of every bitset / mask word of the serialised classes: first (a failure here names the class and the
+            // deck text), with a random stream of its own
+            vh::Rng fr(seed ^ 0xf1a9f1a9ull);
+            sf::probeFlagWords(fr, plog, c.pstats, thorough);
+        }
 #define X(...) propType<__VA_ARGS__>(c, reps);
         SERIAL_MENU(X)
 #undef X
@@ -304,7 +314,6 @@ int main(int argc, char** argv) {
         so::runObjects(c.rng, plog, c.pstats, thorough, outdir);
         sp::probeSlaveMode(c.rng, plog, c.pstats, thorough ? 60 : 6);
         sp::probeRestartNetworkPressures(c.rng, plog, c.pstats, thorough ? 40 : 4, outdir);
-        sf::probeFlagWords(c.rng, plog, c.pstats, thorough);      // every bit of every bitset / mask word of the serialised classes
         c.pstats["eclipsestate.eq_throws_on_original"] = so::eqThrowsOnOriginal();
         std::ofstream f(outdir + "/prop_stats.json");
         f << "{\n  \"checked\": " << plog.checked << ",\n  \"failed\": " << plog.failed;
